@@ -5,7 +5,8 @@
 (* to) to vectors.ndjson.                                                      *)
 EXTENDS Dnssec17, GenBase
 
-CONSTANTS Mode,      \* "keytag" | "ds" | "nsec3" | "cover" | "validity"
+CONSTANTS Mode,      \* "keytag" | "ds" | "nsec3" | "cover" | "validity" | "spell"
+          SpellPs,   \* mode "spell": the octet counts p of the spread names (every k in 1..5 that gives a valid name)
           Iters,     \* iteration counts for mode "nsec3"
           KSmall,    \* mode "keytag": every key over {00, ff} of at most this many octets
           BigNames   \* mode "nsec3": iteration counts above 1000 only for the first BigNames names and salts of 0 / 8 octets
@@ -79,13 +80,52 @@ CPairs == << <<CZone, << <<119>>, <<69, 88>>, <<67>> >> >>,           \* w.EX.C.
              <<CZone, << <<119, 101, 120>>, <<99>> >> >>,              \* wex.c.    suffix of the text, not of the labels
              << << <<99>> >>, << <<119>>, <<99>> >> >>,                 \* zone c., name w.c.  inside a one-label zone
              << <<>>, << <<119>>, <<100>> >> >> >>                     \* the root zone holds every name
+\* z, n: zone and name (labels); text: the spelling of n handed to the real code
+CoverVectorOf(z, n, text, o, nx, h, lc) ==
+  [kind |-> "cover", zone |-> Present(z), name |-> text, o |-> o, nx |-> nx, h |-> h,
+   lowerowner |-> lc, rootzone |-> z = <<>>,
+   inzone |-> InZone(z, n), shape |-> Shape(<<o>>, <<nx>>), pos |-> Pos(<<o>>, <<nx>>, <<h>>),
+   class |-> CoverClass(z, n, <<o>>, <<nx>>, <<h>>) \o (IF LongText(text) THEN ":text-longer-than-255" ELSE ""),
+   match |-> Match(z, n, <<o>>, <<h>>), cover |-> Cover(z, n, <<o>>, <<nx>>, <<h>>)]
 CoverVector(c) ==
-  LET z == CPairs[c[4]][1]  n == CPairs[c[4]][2] IN
-  [kind |-> "cover", zone |-> Present(z), name |-> Present(n), o |-> c[1], nx |-> c[2], h |-> c[3],
-   lowerowner |-> c[5] = 1, rootzone |-> z = <<>>,
-   inzone |-> InZone(z, n), shape |-> Shape(<<c[1]>>, <<c[2]>>), pos |-> Pos(<<c[1]>>, <<c[2]>>, <<c[3]>>),
-   class |-> CoverClass(z, n, <<c[1]>>, <<c[2]>>, <<c[3]>>),
-   match |-> Match(z, n, <<c[1]>>, <<c[3]>>), cover |-> Cover(z, n, <<c[1]>>, <<c[2]>>, <<c[3]>>)]
+  LET z == CPairs[c[4]][1]  n == CPairs[c[4]][2] IN CoverVectorOf(z, n, Present(n), c[1], c[2], c[3], c[5] = 1)
+
+-----------------------------------------------------------------------------
+\* spell: the operations that are handed a name as text, on names whose text is not as long as their wire form:
+\* Dnssec17!SpreadName(p, k, class) in every spelling of Dnssec17!Spellings.  With k = 1..5 the texts of the
+\* all-escaped names of 63 octets are 253..257 characters long; 250 octets in 4 labels is the longest name there is
+\* (255 on the wire, 1004 characters).
+\*   v = <<"n3", p, k, class>>                      HashName, all spellings in one vector; salt and iterations by p, k
+\*   v = <<"ds", p, k, class, spelling>>            ToDS of that owner; digest type and key by p, k, spelling
+\*   v = <<"cover", p, k, class, spelling, in, o, nx, h>>   Match / Cover of the spread labels below (in = 1) or
+\*                                                  beside (in = 0) the zone ex.c., hash positions 0..2
+SpellSeq == <<"lib", "ddd", "esc", "mix">>
+SpellPK(extra) == { pk \in SpellPs \X (1..5) : SpreadOK(pk[1], pk[2], extra) }
+SpellSalts == <<0, 1, 8>>
+SpellIters == <<0, 1, 2, 10>>
+SpellDts   == <<1, 2, 4>>
+SpellN3Vector(c) ==
+  LET n == SpreadName(c[2], c[3], c[4])  salt == SaltOf(SpellSalts[((c[2] + c[3]) % 3) + 1])  k == SpellIters[((c[2] * c[3]) % 4) + 1] IN
+  [kind |-> "nsec3", names |-> [i \in 1..4 |-> Spell(n, SpellSeq[i])],
+   keys |-> [i \in 1..4 |-> HashNameKey(Spell(n, SpellSeq[i]), FALSE)],
+   textlens |-> [i \in 1..4 |-> Len(Spell(n, SpellSeq[i]))], wirelen |-> WireLen(n),
+   salt |-> salt, iter |-> k, plan |-> NSEC3Plan(n, salt, k),
+   term |-> IF Len(salt) <= 8 THEN NSEC3Hash(n, salt, k) ELSE <<>>]
+SpellIdx(how) == CHOOSE i \in 1..4 : SpellSeq[i] = how
+SpellDSVector(c) ==
+  LET n == SpreadName(c[2], c[3], c[4])  text == Spell(n, c[5])
+      dt == SpellDts[((c[2] + c[3] + SpellIdx(c[5])) % 3) + 1]
+      k == DSKeys[((c[2] + SpellIdx(c[5])) % Len(DSKeys)) + 1]
+      rd == DNSKEYRdata(k[1], k[2], k[3], k[4]) IN
+  [kind |-> "ds", owner |-> text, dkey |-> DSDigestKey(DSHash(dt), text), pkey |-> DSPanicKey(dt), flags |-> k[1], proto |-> k[2], alg |-> k[3], key |-> k[4],
+   dt |-> dt, hash |-> DSHash(dt), input |-> DSInput(n, rd), tag |-> KeyTag(rd), textlen |-> Len(text), wirelen |-> WireLen(n)]
+SpellOutZone == << <<101, 120>>, <<100>> >>                     \* ex.d.
+SpellCoverPK == { <<63, 1>>, <<63, 3>>, <<64, 2>>, <<126, 2>>, <<245, 4>> } \cap SpellPK(5)
+SpellCoverVector(c) ==
+  LET pre == SpreadName(c[2], c[3], c[4])
+      suf == IF c[6] = 1 THEN CZone ELSE SpellOutZone
+      text == Spell(pre, c[5]) \o Present(suf) IN
+  CoverVectorOf(CZone, pre \o suf, text, c[7], c[8], c[9], (c[2] + c[7]) % 2 = 1)
 
 -----------------------------------------------------------------------------
 \* validity: v = <<t32, epoch, dI, dE>>: the instant t = epoch * 2^32 + t32, the instants
@@ -108,6 +148,10 @@ Init ==
                        /\ (v[3] > 1000 => v[1] >= 2 /\ v[1] <= BigNames + 1 /\ v[2] \in {0, 8})
   \/ Mode = "cover"    /\ v \in (0..4) \X (0..4) \X (0..4) \X (1..Len(CPairs)) \X {0, 1}
   \/ Mode = "validity" /\ v \in VTs \X {0, 1} \X VOffs \X VOffs
+  \/ Mode = "spell"    /\ \/ \E pk \in SpellPK(0), cls \in SpreadClasses : v = <<"n3", pk[1], pk[2], cls>>
+                          \/ \E pk \in SpellPK(0), cls \in SpreadClasses, how \in Spellings : v = <<"ds", pk[1], pk[2], cls, how>>
+                          \/ \E pk \in SpellCoverPK, cls \in {"ctl", "punct"}, how \in Spellings, inz \in {0, 1}, o \in 0..2, nx \in 0..2, h \in 0..2 :
+                                v = <<"cover", pk[1], pk[2], cls, how, inz, o, nx, h>>
 Next == UNCHANGED v
 
 Out ==
@@ -116,4 +160,5 @@ Out ==
     [] Mode = "nsec3"    -> Emit(N3Vector(v))
     [] Mode = "cover"    -> Emit(CoverVector(v))
     [] Mode = "validity" -> Emit(ValidityVector(v))
+    [] Mode = "spell"    -> Emit(CASE v[1] = "n3" -> SpellN3Vector(v) [] v[1] = "ds" -> SpellDSVector(v) [] OTHER -> SpellCoverVector(v))
 =============================================================================
